@@ -1,13 +1,18 @@
 #!/bin/bash
-# validate_seed.sh <worktree> <id>: confirm a seeded change (tests pass with it, demo fails with it, passes without it)
+# validate_seed.sh <worktree> <id>: confirm a seeded change (tests pass with it, demo fails with it, passes without it).
+# The sub-agent's patch.diff is the source of truth; no `git stash` (the stash is shared by all worktrees of a
+# repository, so concurrent validations would swap each other's changes).
 W=$1; ID=$2
 cd $W || exit 9
 export PYTHONPATH=$W/src
+mkdir -p /tmp/seed
+git checkout -q -- src
+git apply patch.diff || { echo "$ID: patch.diff does not apply"; exit 1; }
 git diff -- src > /tmp/seed/$ID.patch.check
 [ -s /tmp/seed/$ID.patch.check ] || { echo "$ID: no source diff"; exit 1; }
 T=$(/venv/bin/python -m pytest -q -p no:cacheprovider -x 2>&1 | tail -1)
 /venv/bin/python demo.py >/tmp/seed/$ID.demo_with.log 2>&1; A=$?
-git stash -q -- src
+git apply -R patch.diff
 /venv/bin/python demo.py >/tmp/seed/$ID.demo_without.log 2>&1; B=$?
-git stash pop -q
+git apply patch.diff
 echo "$ID tests_with_change=[$T] demo_with=$A demo_without=$B"
